@@ -10,11 +10,11 @@ package rrc
 //
 // KEY() is the map key the function computed for its address argument (the result of the last
 // pathKey call; net.Addr methods are opaque). INV(m) is the manager invariant: every stored
-// path is a real object within its amplification budget.
+// path is non-nil and within its amplification budget.
 
 //@ define BUDGET(p) (p.receivedBytes <= 6148914691236517205 ==> p.sentBytes <= 3*p.receivedBytes)
 //@ define KEY() retAs("pathKey", 0, addr.String())
-//@ define INV(m) forallKey(m.paths, func(k string) bool { return allocated(m.paths[k]) && BUDGET(m.paths[k]) })
+//@ define INV(m) forallKey(m.paths, func(k string) bool { return m.paths[k] != nil && BUDGET(m.paths[k]) })
 //@ define SAME() retBool("sameAddress", 0)
 
 //@ func Manager.Reserve
@@ -85,8 +85,8 @@ package rrc
 //@    && (old(m.paths[k].receivedBytes) > 18446744073709551615 - uint64(wireBytes) ==> m.paths[k].receivedBytes == 18446744073709551615) })
 //@ ensures sent-unchanged: forallKey(m.paths, func(k string) bool { return KEPT(k) ==> m.paths[k].sentBytes == old(m.paths[k].sentBytes) })
 //@ ensures others-unchanged: forallKey(m.paths, func(k string) bool { return KEPT(k) && m.paths[k] != PL() ==> m.paths[k].receivedBytes == old(m.paths[k].receivedBytes) })
-//@ ensures pending-deadline-not-rearmed: called("Manager.touchLocked") ==> !argAs("Manager.touchLocked", 2, m.paths[""]).challengePending
 //@ ensures pending-deadline-kept: forallKey(m.paths, func(k string) bool { return KEPT(k) && old(m.paths[k].challengePending) ==> m.paths[k].expiresAt == old(m.paths[k].expiresAt) })
+//@ ensures pending-deadline-not-rearmed: called("Manager.touchLocked") ==> !argAs("Manager.touchLocked", 2, m.paths[""]).challengePending
 //@ ensures touched-is-the-counted-path: called("Manager.touchLocked") ==> argAs("Manager.touchLocked", 2, m.paths[""]) == PL() && sameRef(argAs("Manager.touchLocked", 1, addr), addr)
 //@ ensures unlocked: !held("Manager.mu")
 //@ end
@@ -98,17 +98,32 @@ package rrc
 //@ noinline
 //@ requires args: path != nil
 //@ ensures deadline-from-now: called("time.Now") && called("time.Time.Add")
+//@ ensures path-state-kept: path.cookie == old(path.cookie) && path.challengePending == old(path.challengePending)
+//@    && path.sentBytes == old(path.sentBytes) && path.receivedBytes == old(path.receivedBytes)
+//@ ensures cookies-kept: forallKey(m.paths, func(k string) bool { return m.paths[k].cookie == old(m.paths[k].cookie) })
 //@ ensures other-deadlines-kept: forallKey(m.paths, func(k string) bool { return m.paths[k] != path ==> m.paths[k].expiresAt == old(m.paths[k].expiresAt) })
 //@ ensures map-unchanged: sameRef(m.paths, old(m.paths)) && forallKey(m.paths, func(k string) bool { return m.paths[k] == old(m.paths[k]) })
 //@ end
 
+// The expiry callback armed by touchLocked removes a path only when it is still the stored one and its deadline has passed.
+//@ func Manager.touchLocked$1
+//@ watch time.Time.Before
+//@ requires captured: m != nil && path != nil
+//@ ensures only-expired-removed: old(hasKey(m.paths, key)) && !hasKey(m.paths, key) ==> old(m.paths[key]) == path && called("time.Time.Before") && !retBool("time.Time.Before", 0)
+//@ ensures others-kept: forallKey(m.paths, func(k string) bool { return old(hasKey(m.paths, k)) && m.paths[k] == old(m.paths[k]) })
+//@ ensures never-adds: len(m.paths) <= old(len(m.paths))
+//@ ensures unlocked: !held("Manager.mu")
+//@ end
+
 //@ func Manager.Start
-//@ watch sameAddress Manager.pathLocked rand.Read
+//@ watch sameAddress Manager.pathLocked rand.Read Manager.touchLocked
 //@ invariant inv: INV(m)
 //@ ensures disabled: !enabled ==> !result1 && result2 == nil && !called("Manager.pathLocked")
 //@ ensures active-not-challenged: enabled && SAME() ==> !result1 && result2 == nil && !called("Manager.pathLocked")
 //@ ensures error-no-challenge: result2 != nil ==> !result1
-//@ ensures challenge-recorded: result1 ==> PL() != nil && PL().challengePending && PL().cookie == result0
+//@ ensures challenge-pending: result1 ==> PL() != nil && PL().challengePending
+//@ ensures challenge-arms-deadline: result1 ==> called("Manager.touchLocked") && argAs("Manager.touchLocked", 2, m.paths[""]) == PL()
+//@ ensures no-challenge-no-rearm: !result1 ==> !called("Manager.touchLocked")
 //@ ensures fresh-cookie: result1 ==> called("rand.Read") && retErr("rand.Read", 1) == nil
 //@ ensures one-challenge-at-a-time: result1 ==> forallKey(m.paths, func(k string) bool { return KEPT(k) && m.paths[k] == PL() ==> !old(m.paths[k].challengePending) })
 //@ ensures pending-kept: forallKey(m.paths, func(k string) bool { return KEPT(k) && old(m.paths[k].challengePending) ==> m.paths[k].challengePending })
@@ -117,6 +132,9 @@ package rrc
 //@ ensures counters-unchanged: forallKey(m.paths, func(k string) bool { return KEPT(k) ==>
 //@    m.paths[k].sentBytes == old(m.paths[k].sentBytes) && m.paths[k].receivedBytes == old(m.paths[k].receivedBytes) })
 //@ ensures unlocked: !held("Manager.mu")
+// (engine limit, kept last so that it is not assumed by the other clauses: touchLocked is summarised by its write set, which
+// contains every byte array because pathKey concatenates strings; the local cookie array read for result0 is havocked.)
+//@ ensures challenge-recorded: result1 ==> PL() != nil && PL().challengePending && PL().cookie == result0
 //@ end
 
 //@ func Manager.Cancel
@@ -170,4 +188,6 @@ package rrc
 //@ ensures marked-after: marked
 //@ ensures counts-wire-bytes: !old(marked) ==> argInt("Manager.recordReceived", 3) == wireBytes
 //@ ensures counts-after-marker: !old(marked) ==> calledBefore("marker", "Manager.recordReceived")
+//@ ensures counts-for-the-source: !old(marked) ==> sameRef(argAs("Manager.recordReceived", 1, addr), addr)
+//@ ensures active-is-the-current-peer: !old(marked) ==> called("activeAddress") && sameRef(argAs("Manager.recordReceived", 2, addr), retAs("activeAddress", 0, addr))
 //@ end
